@@ -1043,6 +1043,143 @@ def straddle_layer(sess, tier):
 
 
 # --------------------------------------------------------------------------
+# (E) one script / one EXEC = one clock reading: blocks whose execution straddles the deadline
+# --------------------------------------------------------------------------
+BLOCK_SCRIPT = """
+local k = KEYS[1]; local k2 = KEYS[2]
+local v1 = redis.call('GET', k); local e1 = redis.call('EXISTS', k); local p1 = redis.call('PTTL', k); local t1 = redis.call('TTL', k)
+redis.call('SET', k2, '7', 'PX', ARGV[2])
+local x = 0
+for i = 1, tonumber(ARGV[1]) do x = x + i end
+local e2 = redis.call('EXISTS', k); local v2 = redis.call('GET', k); local p2 = redis.call('PTTL', k); local t2 = redis.call('TTL', k)
+local n = redis.call('INCR', k); local p3 = redis.call('PTTL', k)
+local w = redis.call('GET', k2); local pw = redis.call('PTTL', k2)
+return {v1 or 'NIL', e1, p1, t1, e2, v2 or 'NIL', p2, t2, n, p3, w or 'NIL', pw}
+"""
+BLOCK_FIELDS = ["get1", "exists1", "pttl1", "ttl1", "exists2", "get2", "pttl2", "ttl2", "incr", "pttl3", "get_k2", "pttl_k2"]
+
+
+def _plain(r):
+    return r[1].decode("latin-1") if r[0] in ("b", "s") else r[1] if r[0] == "i" else "NIL" if r[0] in ("nb", "na") else repr(r)
+
+
+def block_consistent(vals, px2):
+    """every later observation agrees with the FIRST reading of the clock (the key was visible then, with value 5)"""
+    g = dict(zip(BLOCK_FIELDS, vals))
+    if not (g["get1"] == "5" and g["exists1"] == 1 and isinstance(g["pttl1"], int) and g["pttl1"] > 0):
+        return None                                   # the key was not visible at the start: the attempt says nothing
+    ok = (g["exists2"] == 1 and g["get2"] == "5" and isinstance(g["pttl2"], int) and abs(g["pttl2"] - g["pttl1"]) <= 1 and g["ttl2"] == g["ttl1"] and
+          g["incr"] == 6 and isinstance(g["pttl3"], int) and abs(g["pttl3"] - g["pttl1"]) <= 1 and
+          g["get_k2"] == "7" and isinstance(g["pttl_k2"], int) and abs(g["pttl_k2"] - px2) <= 1)
+    return ok
+
+
+def block_layer(sess, tier):
+    """`SET k 5 PX <ttl>` and then ONE script (EVAL; thorough: EVALSHA, EVAL inside EXEC) or ONE transaction (EXEC of a long
+    command list) that reads k, sets k2 with a short TTL, works ~3x the TTL, and then tests / reads / INCRs / asks the TTL of k
+    and reads k2.  Oracle: the block is one step - everything agrees with its first reading (k visible, value 5): EXISTS 1,
+    GET 5, PTTL/TTL as at the start, INCR -> 6 keeping the TTL, k2 still there with its whole TTL; and once the block has
+    returned (the deadlines being over by then) both keys are absent."""
+    a, b = sess.srv.client(30), sess.srv.client(30)
+    for c in (a, b):
+        c.cmd("SELECT", "15")
+    out = []
+
+    def finish(rec, vals, px2, dt_ms, ttl):
+        rec.update({"values": dict(zip(BLOCK_FIELDS, vals)), "block_ms": round(dt_ms, 1), "ttl_ms": ttl, "k2_px": px2})
+        rec["straddled"] = dt_ms > ttl
+        rec["consistent"] = block_consistent(vals, px2)
+        time.sleep(0.005)
+        rec["after_block"] = {"exists_k": b.cmd("EXISTS", "k")[1], "exists_k2": b.cmd("EXISTS", "k2")[1]}
+        # after the step: the deadlines (start + ttl) are over; INCR kept k's deadline, so both keys must be gone
+        rec["absent_after"] = rec["after_block"] == {"exists_k": 0, "exists_k2": 0} if rec["consistent"] else None
+        sess.rep.evaluations += 1
+        sess.rep.nontrivial(("block", rec["kind"], rec["consistent"], rec["straddled"]))
+        b.cmd("DEL", "k", "k2")
+        out.append(rec)
+
+    # ---- scripts: calibrate the busy loop
+    t = time.monotonic()
+    r = a.cmd("EVAL", "local x = 0 for i = 1, tonumber(ARGV[1]) do x = x + i end return 1", "0", "2000000", timeout=30)
+    per_ms = 2000000 / max((time.monotonic() - t) * 1000.0, 1.0)
+    if r != ("i", 1):
+        raise InternalError("block layer: calibration script answered %r" % (r,))
+    ttl, px2 = 150, 100
+    iters = int(per_ms * ttl * 3)
+    kinds = ["EVAL"] + (["EVALSHA", "EVAL-in-EXEC"] if tier != "quick" else [])
+    for kind in kinds:
+        for attempt in range(3):
+            b.cmd("DEL", "k", "k2")
+            b.cmd("SET", "k", "5", "PX", str(ttl))
+            t = time.monotonic()
+            if kind == "EVAL":
+                r = a.cmd("EVAL", BLOCK_SCRIPT, "2", "k", "k2", str(iters), str(px2), timeout=30)
+            elif kind == "EVALSHA":
+                sha = a.cmd("SCRIPT", "LOAD", BLOCK_SCRIPT)
+                t = time.monotonic()
+                r = a.cmd("EVALSHA", sha[1], "2", "k", "k2", str(iters), str(px2), timeout=30)
+            else:
+                a.cmd("MULTI")
+                a.cmd("EVAL", BLOCK_SCRIPT, "2", "k", "k2", str(iters), str(px2))
+                r = a.cmd("EXEC", timeout=30)
+                r = r[1][0] if r[0] == "a" and len(r[1]) == 1 else r
+            dt = (time.monotonic() - t) * 1000.0
+            if r[0] != "a" or len(r[1]) != len(BLOCK_FIELDS):
+                raise InternalError("block layer: %s answered %r" % (kind, r))
+            rec = {"kind": kind}
+            finish(rec, [_plain(x) for x in r[1]], px2, dt, ttl)
+            if rec["consistent"] is not None and rec["straddled"]:
+                break
+
+    # ---- a transaction: the same sequence as queued commands, a long filler in the middle
+    N = 12000
+    z = ["ZADD", "filler"]
+    for i in range(N):
+        z += [str(i), "m%06d" % i]
+
+    def queue(px2_):
+        if a.cmd("MULTI") != ("s", b"OK"):
+            raise InternalError("block layer: MULTI refused")
+        cmds = [["GET", "k"], ["EXISTS", "k"], ["PTTL", "k"], ["TTL", "k"], ["SET", "k2", "7", "PX", str(px2_)]]
+        for _ in range(4):
+            cmds += [z, ["DEL", "filler"]]
+        cmds += [["EXISTS", "k"], ["GET", "k"], ["PTTL", "k"], ["TTL", "k"], ["INCR", "k"], ["PTTL", "k"], ["GET", "k2"], ["PTTL", "k2"]]
+        for c in cmds:
+            if a.cmd(*c, timeout=30) != ("s", b"QUEUED"):
+                raise InternalError("block layer: queueing %s failed" % c[0])
+        return cmds
+
+    def pick(reply, cmds):
+        vals = [_plain(x) for x, c in zip(reply, cmds) if c[0] not in ("ZADD", "DEL", "SET")]
+        return vals
+    b.cmd("DEL", "k", "k2", "filler")
+    b.cmd("SET", "k", "5")
+    cmds = queue(100000)
+    t = time.monotonic()
+    a.cmd("EXEC", timeout=60)
+    exec_ms = (time.monotonic() - t) * 1000.0
+    for attempt in range(3):
+        ttl_x = max(10, int(exec_ms / 3))
+        px2_x = max(5, ttl_x // 2)
+        b.cmd("DEL", "k", "k2", "filler")
+        cmds = queue(px2_x)
+        b.cmd("SET", "k", "5", "PX", str(ttl_x))
+        t = time.monotonic()
+        r = a.cmd("EXEC", timeout=60)
+        dt = (time.monotonic() - t) * 1000.0
+        if r[0] != "a" or len(r[1]) != len(cmds):
+            raise InternalError("block layer: EXEC answered %r" % (r[:1],))
+        rec = {"kind": "EXEC", "queued": len(cmds)}
+        finish(rec, pick(r[1], cmds), px2_x, dt, ttl_x)
+        if rec["consistent"] is not None and rec["straddled"]:
+            break
+    b.cmd("DEL", "k", "k2", "filler")
+    a.close()
+    b.close()
+    return out
+
+
+# --------------------------------------------------------------------------
 # verdict
 # --------------------------------------------------------------------------
 def match_finding(fs, tag):
@@ -1200,7 +1337,9 @@ def main(tier, seed):
                 "sweeper stepped one pass at a time or parked at the gate between collect and delete with 1-3 commands in the window, exact replies vs model of the code and vs prescribed store, dataset at the end; "
                 "(C) scripted: 7 window commands at the gate, 16 stale-index / elapsed-TTL cases with the sweeper running (>= 2 passes awaited); "
                 "(D) one command = one clock reading: ZADD of 12000 pairs (queued in MULTI, run by EXEC), ZPOPMIN 12000 (thorough: ZREM of 12000 members) with PEXPIRE aimed into the "
-                "calibrated execution time by bisection (up to 8 attempts): afterwards the key must be absent or hold exactly the new members without TTL, a pop must return nothing or everything. "
+                "calibrated execution time by bisection (up to 8 attempts): afterwards the key must be absent or hold exactly the new members without TTL, a pop must return nothing or everything; "
+                "(E) one script / one EXEC = one clock reading: SET k 5 PX ttl, then one EVAL (thorough: EVALSHA, EVAL inside EXEC) with a busy loop of 3x the TTL, and one EXEC of 21 queued "
+                "commands with 4 big ZADDs in the middle (TTL = a third of the calibrated execution): GET / EXISTS / PTTL / TTL / INCR of k and a key SET PX inside must all agree with the first reading, both keys absent afterwards. "
                 "Every request bracketed with the monotonic clock, model time = bracket midpoint, out-of-window items discarded and counted. "
                 "distinct = (part, command or key, type, phase, outcome class) tuples" % len(matrix_commands(b"x")))
     rep.assumptions = [
@@ -1220,7 +1359,7 @@ def main(tier, seed):
     fs = findings()
     v = Verdict(rep, fs)
     rep.extra["switches"] = {"sweeperRechecks": f["sweeperRechecks"], "centralLazy": f["centralLazy"], "setValueDropsStale": d["setValueDropsStale"],
-                             "setNxDropsStale": d["setNxDropsStale"], "renameMovesIndex": d["renameMovesIndex"], "emptiedDropsIndex": d["emptiedDropsIndex"], "ttlLastMsFixed": f.get("ttlLastMsFixed"), "zsetOneCall": f.get("zsetOneCall"),
+                             "setNxDropsStale": d["setNxDropsStale"], "renameMovesIndex": d["renameMovesIndex"], "emptiedDropsIndex": d["emptiedDropsIndex"], "ttlLastMsFixed": f.get("ttlLastMsFixed"), "zsetOneCall": f.get("zsetOneCall"), "scriptClockFrozen": f.get("scriptClockFrozen"),
                              "lazyChecked": d["lazyChecked"], "notLazy": d["notLazy"]}
     timing = {"proof_and_build": round(time.time() - rep.t0, 1)}
     sess = Session(rep, cfg_line(f, d))
@@ -1305,6 +1444,28 @@ def main(tier, seed):
                     v.unexplained.append((what, {"kind": "straddle", "record": rec}))
         timing["straddle"] = round(time.time() - tp, 1)
         rep.extra["phase_seconds"] = timing
+        # (E) one script / one EXEC = one clock reading
+        tp = time.time()
+        brecs = block_layer(sess, tier)
+        rep.extra["blocks"] = brecs
+        for rec in brecs:
+            bad = rec["consistent"] is False or rec["absent_after"] is False
+            if bad:
+                g = rec["values"]
+                what = ("%s (%.0f ms of execution, TTL %d ms): a key expired in the MIDDLE of the block - first reading GET=%s EXISTS=%s PTTL=%s, later in the same block "
+                        "EXISTS=%s GET=%s PTTL=%s, INCR -> %s with PTTL %s; k2 (SET ... PX %d inside) read back %s PTTL %s; after the block EXISTS k / k2 = %s "
+                        "(a script / a transaction is one step: everything must agree with its first clock reading)" % (
+                            rec["kind"], rec["block_ms"], rec["ttl_ms"], g["get1"], g["exists1"], g["pttl1"], g["exists2"], g["get2"], g["pttl2"], g["incr"], g["pttl3"],
+                            rec["k2_px"], g["get_k2"], g["pttl_k2"], rec["after_block"]))
+                fnd = None if f.get("scriptClockFrozen") else match_finding(fs, "block:per-call-clock")
+                rep.count("oracle_failures")
+                if fnd and rec["consistent"] is False:
+                    v.known.setdefault(fnd["id"], fnd)
+                    rep.count("known.block:per-call-clock")
+                else:
+                    v.unexplained.append((what, {"kind": "block", "record": rec}))
+        timing["blocks"] = round(time.time() - tp, 1)
+        rep.extra["phase_seconds"] = timing
         # the last millisecond (informational)
         try:
             hits, spanned = probe_last_millisecond(sess)
@@ -1357,6 +1518,12 @@ def replay(path):
             judge_scenario(v, rep, sc)
             for s in sc["state"]:
                 print("%-6s server %s | model of the code %s | prescribed %s" % (s["key"], s["impl"], s["code"], s["spec"]))
+        elif kind == "block":
+            for rec in block_layer(sess, "thorough"):
+                print("%s: %.0f ms, TTL %d ms, straddled %s, consistent with the first reading: %s, absent afterwards: %s  %s" % (
+                    rec["kind"], rec["block_ms"], rec["ttl_ms"], rec["straddled"], rec["consistent"], rec["absent_after"], rec["values"]))
+                if rec["consistent"] is False or rec["absent_after"] is False:
+                    v.unexplained.append(("%s: a key expired in the middle of the block" % rec["kind"], {}))
         elif kind == "straddle":
             for rec in straddle_layer(sess, "quick"):
                 print("%s: execution %.1f ms; attempts %s" % (rec["cmd"], rec["exec_ms"], rec["attempts"]))
